@@ -41,14 +41,13 @@ type rec struct {
 type binVal struct{ b []byte }
 
 func (v binVal) MarshalBinary() ([]byte, error) {
-	return append([]byte{0xB1}, v.b...), nil
+	// no tag byte: an empty value encodes to the empty byte string, which is a legitimate
+	// record (a value read back must equal the value written)
+	return append([]byte(nil), v.b...), nil
 }
 
 func (v *binVal) UnmarshalBinary(d []byte) error {
-	if len(d) == 0 || d[0] != 0xB1 {
-		return errors.New("binVal: bad tag")
-	}
-	v.b = append([]byte(nil), d[1:]...)
+	v.b = append([]byte(nil), d...)
 	return nil
 }
 
@@ -112,6 +111,9 @@ func randomVal(rng *rand.Rand) val {
 		v.b = rb(64)
 	case kBinary:
 		v.b = rb(64)
+		if rng.Intn(4) == 0 {
+			v.b = nil // encodes to the empty byte string
+		}
 	case kUint:
 		v.u = rng.Uint64()
 	}
